@@ -80,7 +80,7 @@ def terminalEvs : Res → List Ev
 theorem core_correct (cf : Config) (body : S) (hw : 2 ≤ cf.w)
     (hB : funcLen cf.checked body + stdlibLength < 256 ^ cf.w)
     (hSE : 5 * cf.w + cf.stackWords * cf.w + cf.w < 256 ^ cf.w)
-    (hwf : wfS [] body = true)
+    (hwf : wfS [] body = true) (hyl : youLevel body = true)
     (fuel : Nat) (env' : Env) (tr : List Ev) (res : Res)
     (hex : exec (256 ^ cf.w) (8 * cf.w) fuel (fun _ => 0) body = some (env', tr, res))
     (hck : res = .div0 → cf.checked = true)
@@ -127,8 +127,24 @@ theorem core_correct (cf : Config) (body : S) (hw : 2 ≤ cf.w)
         ((cf.stackWords + 1) * cf.w) cf.w (B + off_all_is_win) →
       ∃ mEnd, Reach (sphinx p) ⟨prologueLen cf.checked, m0⟩ (tr ++ terminalEvs res) ⟨tntPc B, mEnd⟩ := by
     intro m0 hi0
-    obtain ⟨st', r, hpost⟩ := hbody m0 env' tr res hbodyP (by omega) hi0 (fun _ _ h => by simp at h) hwf hroom
-      (Nat.le_refl _) hex hck
+    have hnd : res ≠ .defeat := exec_no_defeat _ _ _ _ _ _ _ _ hyl hex
+    have hsafe : ∀ st', Post p B (B + off_all_is_win) [] env' (5 * cf.w + cf.stackWords * cf.w + cf.w)
+        ((cf.stackWords + 1) * cf.w) cf.w
+        (prologueLen cf.checked + (cS (cxOf p cf.checked B) [] (prologueLen cf.checked) cf.w body).length) res st' →
+        ¬ Halts (sphinx p) st' := by
+      intro st' hp'
+      obtain ⟨pc', m'⟩ := st'
+      have tn := terminal_never_halts lib m'
+      cases res with
+      | norm =>
+        simp only [Post] at hp'
+        have hpc : pc' = B + off_all_is_win := by rw [hp'.1, hbodyLen]; simp [off_all_is_win]
+        subst hpc; exact tn.1
+      | returned => simp only [Post] at hp'; subst hp'; exact tn.1
+      | div0 => simp only [Post] at hp'; subst hp'; exact tn.2.2.2.1
+      | defeat => exact absurd rfl hnd
+    obtain ⟨st', r, hpost⟩ := (hbody m0 env' tr res hbodyP (by omega) hi0 (fun _ _ h => by simp at h) hwf hroom
+      (Nat.le_refl _) hex hck (Or.inr ⟨hyl, hsafe⟩)).2 hnd
     obtain ⟨pc', m'⟩ := st'
     cases res with
     | norm =>
@@ -144,6 +160,7 @@ theorem core_correct (cf : Config) (body : S) (hw : 2 ≤ cf.w)
       simp only [Post] at hpost
       subst hpost
       exact ⟨m', r.trans (error_stub_reach lib m').2.1⟩
+    | defeat => exact absurd rfl hnd
   -- the prologue
   have hreach : ∃ mEnd, Reach (sphinx p) (coreInit cf body) (tr ++ terminalEvs res) ⟨tntPc B, mEnd⟩ := by
     cases hc : cf.checked with
